@@ -748,9 +748,9 @@ class Screen:
                     self.touched[yy][xx] = True
         entry["placed"] = (x, y, w, h)
         if keys.get("doNotMoveCursor") == "1":
-            self.y = y
+            self.y = max(0, y)
             return
-        self.y = min(self.rows - 1, y + h - 1)
+        self.y = max(0, min(self.rows - 1, y + h - 1))
         nx = x + w
         if nx >= self.cols:
             self.x = self.cols - 1
